@@ -148,7 +148,7 @@ partial def parseTrees : Nat → List String → Option (List Sqfs.Numbering.Tre
   | k + 1, tok :: rest =>
     let one : Option (Sqfs.Numbering.Tree × List String) :=
       if tok = "f" then some (.file, rest)
-      else if tok = "h" then some (.hlink, rest)
+      else if tok = "h" then some (.hlink 0, rest)
       else if tok.startsWith "d" then
         match (tok.drop 1).toNat? with
         | some m => (parseTrees m rest).map (fun r => (Sqfs.Numbering.Tree.dir r.1, r.2))
@@ -160,7 +160,7 @@ partial def parseTrees : Nat → List String → Option (List Sqfs.Numbering.Tre
 
 partial def showNums : Sqfs.Numbering.NTree → List String
   | .file n => [toString n]
-  | .hlink => ["-"]
+  | .hlink _ => ["-"]
   | .dir n cs => toString n :: cs.flatMap showNums
 
 structure St where
